@@ -32,7 +32,8 @@ PROFILES = {
     'C06': P(force=('failures',), windows=0.5, timeouts=0.15, critical=0.15,
              stalls=0.0),
     'C07': P(force=('windows',), failures=0.5, timeouts=0.4, critical=0.4),
-    'C08': P(force=('timeouts',), never=0.5, windows=0.4, slow_cleanup=0.35),
+    'C08': P(force=('timeouts',), never=0.5, windows=0.4, slow_cleanup=0.35,
+             allow_all_forever=True),
     'C09': P(force=('forever',), never=0.5, windows=0.4, zero_jobs=0.5),
     'C10': P(force=('nesting',), critical=0.7, failures=0.6, timeouts=0.3),
     'C11': P(force=('nesting',), slow_cleanup=0.6, slow_handlers=0.6,
